@@ -19,12 +19,12 @@ E == <<>>  X == <<120>>  Y == <<121>>
 SetOps(ks, vs) == [o : {"set"}, k : ks, v : vs] \cup [o : {"del"}, k : ks, v : {E}]
 SeqsUpTo(S, m) == UNION {[1..i -> S] : i \in 1..m}
 
-\* quick: 5 keys sharing prefixes, empty value, start at / before / after / beyond the range, missing start
+\* quick: 5 keys sharing prefixes, empty value, start at / after (missing key) / before / beyond the range
 KeysQ == {A, AC, AC1, AC2, B}
-ValsQ == {E, X, Y}
+ValsQ == {E, X}
 PrefQ == {AC, A, E}
-StartQ == {AC1, AC0, AC3, A, B}
-BatchQ == SeqsUpTo(SetOps({AC1}, {X, E}) \cup SetOps({B}, {Y}), 2)
+StartQ == {AC1, AC3, A, B}
+BatchQ == SeqsUpTo(SetOps({AC1}, {X, E}), 2)
 
 \* thorough: the 7 keys of the design, more prefixes / starts, batches up to 3 ops
 KeysT == {A, AC, AC1, AC2, B, BC1, C}
@@ -32,6 +32,10 @@ ValsT == {E, X, Y}
 PrefT == {AC, A, E, B, D}
 StartT == {AC1, AC0, AC3, A, B, BT, C, E}
 BatchT == SeqsUpTo(SetOps({AC1, B}, {X, E}), 2) \cup SeqsUpTo(SetOps({AC1}, {X, Y}), 3)
+
+\* mid (thorough tier only): the quick keys with all start classes and two-key batches, one more call
+StartM == {AC1, AC0, AC3, A, B}
+BatchM == SeqsUpTo(SetOps({AC1}, {X, E}) \cup SetOps({B}, {Y}), 2)
 
 \* deep: small alphabet, long sequences (interleavings of writes with one open iterator)
 KeysD == {AC, AC1, B}
